@@ -24,7 +24,12 @@ def impl_eval(case):
     def warm_up(live, pre):
         iso8583.loads(bytes.fromhex(pre['data']), encoding=codec, iso_config=live, hex_bitmap=hexbm)
     cfg = c01.live_config(case, warm_up)
-    obs, d, ex = iu.obs_loads(lambda: iso8583.loads(data, encoding=codec, iso_config=cfg, hex_bitmap=hexbm), cfg)
+    # every third input is handed over as the caller's own bytearray (a mutable bytes-like object): decoding reads it,
+    # and leaves it as it was
+    arg = bytearray(data) if len(data) % 3 == 1 else data
+    obs, d, ex = iu.obs_loads(lambda: iso8583.loads(arg, encoding=codec, iso_config=cfg, hex_bitmap=hexbm), cfg)
+    if bytes(arg) != data:
+        return {'obs': obs, 'violation': "decoding changed the caller's buffer", 'tags': ['buffer-changed']}
     cfg = cfg_of(case)      # the references read the configuration the caller asked for
     why = None
     try:
